@@ -6,7 +6,7 @@ import json, os, subprocess, sys, tempfile, shutil, re
 from multiprocessing.pool import ThreadPool
 V = "/verif"
 env = dict(os.environ, GOFLAGS="-mod=mod", GOPROXY="off", GOSUMDB="off", GOTOOLCHAIN="local")
-props = [c["property_id"] for c in json.load(open(f"{V}/MANIFEST.json"))["checks"]]
+props = os.environ.get("BENIGN_PROPS", "").split() or [c["property_id"] for c in json.load(open(f"{V}/MANIFEST.json"))["checks"]]
 
 def one(patch):
     tmp = tempfile.mkdtemp(prefix="benign-")
